@@ -271,6 +271,7 @@ func runC03(c *fw.C) {
 			h = fw.Mix(h, uint64(a))
 		}
 		c.Seen("policies", policy)
+		c.Distinct("completion_orders", h)
 		if !inOrder {
 			c.Obs("flushes_completed_out_of_call_order", 1)
 		}
